@@ -13,6 +13,7 @@ package main
 //   cdrsize update  <h> <nusage> <ncont> <upflen>
 //   cdrsize release <h> <nusage> <ncont> <upflen>
 //   cdrsize fit   <h> <delta>     an update sized at run time: len(record) + len(usage) = 65535 + delta
+//   cdrsize fitbare <h> <delta>   the same; the update carries no nfConsumerIdentification and no chargingId (what the create said is not repeated)
 //   cdrsize fiton <h> <delta>     the same, and the first container reports ONLINE_CHARGING usage with a QUOTA_THRESHOLD
 //                                 trigger (the update that crosses the record limit also cuts the session's first partial record)
 //   cdrsize end
@@ -49,6 +50,7 @@ var (
 	sizeCounter  uint64
 	sizeSent     = map[string]int{} // subscriber -> containers carried by its accepted requests
 	sizeOnline   bool               // the next request's first container is online usage with a trigger
+	sizeBare     bool               // the next request carries neither consumer identification nor the create's charging id
 )
 
 func init() {
@@ -124,6 +126,12 @@ func runCdrSize(line string, t []string) string {
 	kind := t[0]
 	var nusage, ncont, upflen int
 	sizeOnline = false
+	sizeBare = false
+	if kind == "fitbare" {
+		// the update that crosses the limit is an update like most: what a create says about the consumer is not repeated in it
+		sizeBare = true
+		kind = "fit"
+	}
 	if kind == "fiton" {
 		if s == nil {
 			return "bad-op"
@@ -159,6 +167,10 @@ func runCdrSize(line string, t []string) string {
 	}
 	chfSupis[s.supi] = true
 	req := sizeReq(s, nusage, ncont, upflen)
+	if sizeBare {
+		req.NfConsumerIdentification = nil
+		req.ChargingId = 0
+	}
 	pre, chg := sessionRecordLen(s), usageLen(req)
 	// the record the session writes to before the request (fields + what OpenCDR took from outside the charging model)
 	preRec, preDump := sessionRecord(s), "-"
@@ -373,6 +385,16 @@ func genCdrSize(o genOpts, w *bufio.Writer) {
 				op("release", hs, 0, 0, 0)
 			})
 		}
+	}
+	// 2c'. the update that crosses the limit does not repeat what the create said about the consumer
+	for _, delta := range []int{-2, 1, 40} {
+		scenario(func(mk func(string, string, int, int, int) string) {
+			hs := mk("imsi-208930000000010", "smf", 1, 4, 3)
+			op("update", hs, 1, 900, 3)
+			fmt.Fprintf(w, "cdrsize fitbare %s %d\n", hs, delta)
+			op("update", hs, 1, 2, 3)
+			op("release", hs, 0, 0, 0)
+		})
 	}
 	// 2c. the update that crosses the limit is also the session's first online report with a trigger
 	for _, delta := range []int{-2, 1, 40, 340} {
